@@ -11,7 +11,6 @@ the first operand.  Dyadic bases (D) are compared exactly, realistic bases (R) w
 from __future__ import annotations
 
 import itertools
-import math
 from fractions import Fraction as Fr
 
 import numpy as np
@@ -631,7 +630,7 @@ def _world(base, px, py):
     return A * (px, py)
 
 
-def _judge_enclosing(r, base, src, got, tb, tol, keytail, what):
+def _judge_enclosing(r, base, got, tb, tol, keytail, what):
     """tb = true pixel bounding box of the region (exact or sampled) in base pixels."""
     if got[0] == "raised":
         r.fail(f"enclosing:raised:{keytail}", f"{what}: {type(got[1]).__name__}: {got[1]}")
@@ -679,7 +678,7 @@ def run_enclosing(case):
     r = R(outcome=f"{base}:{kind}:{span}")
     what = f"base={base} src=shift(1,-2) region={kind} pixel-corners=({X0!r},{Y0!r})..({X1!r},{Y1!r}) world={verts}"
     got = call(src.enclosing, region)
-    _judge_enclosing(r, base, src, got, tb, tol, f"{kind}:{base}", what)
+    _judge_enclosing(r, base, got, tb, tol, f"{kind}:{base}", what)
     return r
 
 
